@@ -470,16 +470,15 @@ fn attribute(frozen: &[Pattern], target: Target, mode: Mode, cfg_idx: usize, seq
     })
 }
 
-fn run_bfs(sh: &Shared, leg: &Bfs, cfg_idx: usize, t0: Instant, exhaustive: &AtomicBool, completed_depth: &mut usize) -> Stats {
+/// One layer of the breadth-first search for one configuration: every legal one-symbol extension
+/// of the still-passing sequences of the previous layer. Returns `None` if the wall cap was hit.
+fn run_layer(sh: &Shared, leg: &Bfs, cfg_idx: usize, depth: usize, frontier: &[Node], t0: Instant, total: &mut Stats) -> Option<Vec<Node>> {
     let cfg = CFGS[cfg_idx];
     let alpha = alphabet(leg.mode.kind, leg.local);
     assert!(alpha.len() <= 32 && leg.depth <= 10);
-    let mut total = Stats::default();
-    let mut frontier = vec![Node::root(leg.mask)];
-    for depth in 1..=leg.depth {
+    {
         if t0.elapsed().as_secs_f64() > leg.cap_s {
-            exhaustive.store(false, Ordering::SeqCst);
-            break;
+            return None;
         }
         let frozen: Vec<Pattern> = sh.patterns.lock().unwrap().clone();
         let chunks: Vec<&[Node]> = frontier.chunks(256).collect();
@@ -602,29 +601,41 @@ fn run_bfs(sh: &Shared, leg: &Bfs, cfg_idx: usize, t0: Instant, exhaustive: &Ato
         pats.sort_by(|a, b| (a.classes.len(), &a.sig, &a.classes).cmp(&(b.classes.len(), &b.sig, &b.classes)));
         drop(pats);
         if !all_done {
-            exhaustive.store(false, Ordering::SeqCst);
-            break;
+            return None;
         }
-        *completed_depth = depth;
-        frontier = next_frontier;
-        if frontier.is_empty() {
-            break;
-        }
+        Some(next_frontier)
     }
-    total
 }
 
 fn bfs_leg(sh: &Shared, leg: Bfs) {
     let t0 = Instant::now();
     let exhaustive = AtomicBool::new(true);
     let mut total = Stats::default();
-    let mut depths = vec![];
-    for cfg_idx in 0..CFGS.len() {
-        let mut done = 0;
-        let st = run_bfs(sh, &leg, cfg_idx, t0, &exhaustive, &mut done);
-        depths.push(json!({"cfg": CFGS[cfg_idx].text(), "depth_completed": done}));
-        total.add(&st);
+    // iterative deepening across the configurations, so that a wall cap cuts the deepest layer of
+    // the last configurations instead of starving them completely
+    let mut frontiers: Vec<Option<Vec<Node>>> = (0..CFGS.len()).map(|_| Some(vec![Node::root(leg.mask)])).collect();
+    let mut done = vec![0usize; CFGS.len()];
+    'outer: for depth in 1..=leg.depth {
+        for cfg_idx in 0..CFGS.len() {
+            let Some(frontier) = frontiers[cfg_idx].take() else { continue };
+            if frontier.is_empty() {
+                done[cfg_idx] = leg.depth; // fixpoint: nothing left to extend
+                frontiers[cfg_idx] = Some(frontier);
+                continue;
+            }
+            match run_layer(sh, &leg, cfg_idx, depth, &frontier, t0, &mut total) {
+                Some(next) => {
+                    done[cfg_idx] = depth;
+                    frontiers[cfg_idx] = Some(next);
+                }
+                None => {
+                    exhaustive.store(false, Ordering::SeqCst);
+                    break 'outer;
+                }
+            }
+        }
     }
+    let depths: Vec<Value> = (0..CFGS.len()).map(|i| json!({"cfg": CFGS[i].text(), "depth_completed": done[i]})).collect();
     // samples: a few legal sequences with their traces
     let mut samples = vec![];
     let sample_seqs: Vec<Vec<Sym>> = match leg.mode.kind {
@@ -823,7 +834,7 @@ fn main() {
     // value: alphabet 7 (5 without local writes); map: alphabet 21 (14 without local writes)
     bfs_leg(&sh, Bfs { name: "legal-value", mode: m(Kind::Value, false, hash), local: true, depth: if q { 7 } else { 9 }, mask: both, cap_s: 200.0 });
     bfs_leg(&sh, Bfs { name: "legal-value-notifications-only", mode: m(Kind::Value, false, hash), local: false, depth: if q { 8 } else { 10 }, mask: both | burst, cap_s: 200.0 });
-    bfs_leg(&sh, Bfs { name: "legal-map", mode: m(Kind::Map, false, hash), local: true, depth: if q { 5 } else { 7 }, mask: both, cap_s: if q { 40.0 } else { 900.0 } });
+    bfs_leg(&sh, Bfs { name: "legal-map", mode: m(Kind::Map, false, hash), local: true, depth: if q { 5 } else { 7 }, mask: both, cap_s: if q { 40.0 } else { 600.0 } });
     bfs_leg(&sh, Bfs { name: "legal-map-notifications-only", mode: m(Kind::Map, false, hash), local: false, depth: if q { 6 } else { 7 }, mask: both | burst, cap_s: if q { 40.0 } else { 500.0 } });
     bfs_leg(&sh, Bfs { name: "redundant-client-value", mode: m(Kind::Value, true, hash), local: false, depth: if q { 7 } else { 9 }, mask: CLIENT_OK, cap_s: 100.0 });
     bfs_leg(&sh, Bfs { name: "redundant-client-map", mode: m(Kind::Map, true, hash), local: false, depth: if q { 5 } else { 6 }, mask: CLIENT_OK, cap_s: if q { 20.0 } else { 300.0 } });
